@@ -1,0 +1,17 @@
+//go:build verif
+
+package ast_groovy
+
+// Contracts checked by /verif (vcgo). Comment-only: no executable code.
+// C19: "group:artifact[:version]" in single or double quotes yields the group and the artifact without the quotes;
+// a string without a colon is not a dependency notation.
+
+//@ spec Unq(s string) string := ReplaceAll(ReplaceAll(s, "'", ""), "\"", "")
+//@ spec Rest(s string) string := s[IndexOf(s, ":") + 1:]
+//@ spec Seg0(s string) string := s[:IndexOf(s, ":")]
+//@ spec Seg1(s string) string := Contains(Rest(s), ":") ? Rest(s)[:IndexOf(Rest(s), ":")] : Rest(s)
+
+//@ func ConvertToJDep
+//@ ensures !Contains(Unq(result), ":") ==> result0 == nil
+//@ ensures Contains(Unq(result), ":") ==> result0 != nil && (*result0).GroupId == Seg0(Unq(result)) && (*result0).ArtifactId == Seg1(Unq(result))
+//@ ensures Contains(Unq(result), ":") ==> (*result0).Scope == "" && (*result0).Type == "" && (*result0).Version == "" && !(*result0).Optional
